@@ -278,4 +278,227 @@ theorem cache_miss_safe_poll (s : Source) (tip : Hdr) (c1 c2 : Cache)
 example : (pollBestTip (exSrc 6 []) ⟨b3, [b1, ⟨2, 1, 1, 4⟩]⟩).notifs = (pollBestTip (exSrc 6 []) ⟨b3, []⟩).notifs := by
   decide
 
+/-! ## a source failure keeps exactly the delivered prefix -/
+
+/-- Let the walk have succeeded with difference `d`, and let `j` be the number of block fetches that
+    succeed before the first failure (`j = length` if none fails). Then the listener received the
+    disconnect (iff the common ancestor differs from its old tip) followed by exactly the first `j`
+    blocks of the ascending path, nothing else; `synchronize_listener` reports — and `update_chain_tip`
+    stores as `chain_tip` — exactly the `j`-th block (the common ancestor if `j = 0`); and the listener's
+    chain is the chain of that block. So `chain_tip` and the listeners agree after every error, and the
+    next poll starts from where this one stopped (see `notifications_single_chain` for the history). -/
+theorem error_keeps_prefix (s : Source) (c : Cache) (req : Nat) (new old : Hdr) (d : Diff) (req1 : Nat)
+    (hw : wfTree s.tree = true) (hc : CacheOk s.tree c) (hn : InTree s.tree new) (ho : InTree s.tree old)
+    (hfd : findDiff s c new old req = .ok (d, req1))
+    (asc : List Hdr) (hasc : asc = d.connected.reverse)
+    (j : Nat) (hj : j = fetchPrefix s req1 asc)
+    (tip' : Hdr) (htip' : tip' = lastOr d.common (asc.take j)) :
+    (synchronizeListener s c req new old).notifs =
+        (if d.common ≠ old then [Notif.disconnected d.common.hash d.common.height] else [])
+          ++ (asc.take j).map connNotif ∧
+    (j < asc.length → (synchronizeListener s c req new old).res = .errAt tip') ∧
+    (j = asc.length → (synchronizeListener s c req new old).res = .ok ∧ tip' = new) ∧
+    (updateChainTip s ⟨old, c⟩ req new).1.tip = tip' ∧
+    applyNotifs s.tree (anc s.tree old) (synchronizeListener s c req new old).notifs
+        = some (anc s.tree tip') := by
+  subst hasc hj htip'
+  have hL := findDiff_spec hw hc hn ho hfd
+  have hpath : anc s.tree new = d.connected.reverse.reverse ++ anc s.tree d.common := by simp [hL.path]
+  have hpre := fun c' => connectBlocks_prefix s d.connected.reverse d.common c' req1
+  have hsync := sync_chain hw hc hn ho _ (rfl : synchronizeListener s c req new old = _)
+  have hupd : (updateChainTip s ⟨old, c⟩ req new).1.tip
+      = syncTip (synchronizeListener s c req new old).res new old := by
+    rcases hu : updateChainTip s ⟨old, c⟩ req new with ⟨cl', conn, ns, r⟩
+    exact (update_spec hw (cl := ⟨old, c⟩) hc ho hn cl' conn ns r hu).2.2.2.2.2
+  -- the reported tip
+  have htip : syncTip (synchronizeListener s c req new old).res new old
+      = lastOr d.common (d.connected.reverse.take (fetchPrefix s req1 d.connected.reverse)) := by
+    unfold synchronizeListener
+    simp only [hfd]
+    by_cases hok : fetchPrefix s req1 d.connected.reverse = d.connected.reverse.length
+    · have hc1 : CacheOk s.tree (if decide (d.common ≠ old) = true then cacheBlocksDisconnected c false d.common else c) := by
+        split
+        · exact cacheOk_blocksDisconnected hc _ _
+        · exact hc
+      have hf := (connectBlocks_fold hw hn d.connected.reverse d.common _ req1 hc1 hpath).2.2.2.1
+      simp only [hpre, hok, beq_self_eq_true, if_true, syncTip] at hf ⊢
+      exact (hf trivial).symm
+    · have : (fetchPrefix s req1 d.connected.reverse == d.connected.reverse.length) = false := by simpa using hok
+      simp only [hpre, this, Bool.false_eq_true, if_false, syncTip]
+  refine ⟨?_, ?_, ?_, ?_, ?_⟩
+  · unfold synchronizeListener
+    simp only [hfd, hpre]
+    by_cases hd : d.common = old <;> simp [hd]
+  · intro hlt
+    unfold synchronizeListener
+    have : (fetchPrefix s req1 d.connected.reverse == d.connected.reverse.length) = false := by
+      have : fetchPrefix s req1 d.connected.reverse ≠ d.connected.reverse.length := by omega
+      simpa using this
+    simp only [hfd, hpre, this, Bool.false_eq_true, if_false]
+  · intro heq
+    have hres : (synchronizeListener s c req new old).res = .ok := by
+      unfold synchronizeListener
+      simp only [hfd, hpre]
+      simp [heq]
+    refine ⟨hres, ?_⟩
+    rw [← htip, hres]; rfl
+  · rw [hupd, htip]
+  · rw [← htip]; exact hsync.1
+
+example : (synchronizeListener (exSrc 6 [8]) [] 2 b6 b3).res = .errAt ⟨4, 1, 1, 4⟩ ∧
+    (synchronizeListener (exSrc 6 [8]) [] 2 b6 b3).notifs = [.disconnected 1 0, .connected 4 1] := by decide
+
+/-- … and nothing is skipped or repeated on the next poll: if the source then answers (same tree, same
+    best tip), the next poll delivers exactly the blocks that were still missing, in order, with no
+    disconnect, and ends at the tip. -/
+theorem error_then_resume (s s2 : Source) (c : Cache) (req : Nat) (new old : Hdr) (d : Diff) (req1 : Nat)
+    (hw : wfTree s.tree = true) (hg : oneGenesis s.tree = true) (hc : CacheOk s.tree c)
+    (hn : InTree s.tree new) (ho : InTree s.tree old)
+    (hfd : findDiff s c new old req = .ok (d, req1))
+    (asc : List Hdr) (hasc : asc = d.connected.reverse) (j : Nat) (hj : j = fetchPrefix s req1 asc)
+    (hs2 : s2.Healthy) (ht2 : s2.tree = s.tree) (hb2 : s2.best = new.hash) :
+    (pollBestTip s2 (updateChainTip s ⟨old, c⟩ req new).1).notifs = (asc.drop j).map connNotif ∧
+    (pollBestTip s2 (updateChainTip s ⟨old, c⟩ req new).1).client.tip = new := by
+  subst hasc hj
+  have hk := error_keeps_prefix s c req new old d req1 hw hc hn ho hfd _ rfl _ rfl _ rfl
+  rcases hu : updateChainTip s ⟨old, c⟩ req new with ⟨cl', conn, ns, r⟩
+  obtain ⟨_, u2, u3, _, _, _⟩ := update_spec hw (cl := ⟨old, c⟩) hc ho hn cl' conn ns r hu
+  have htip : cl'.tip = lastOr d.common (d.connected.reverse.take (fetchPrefix s req1 d.connected.reverse)) := by
+    have := hk.2.2.2.1; rw [hu] at this; exact this
+  simp only
+  have hL := findDiff_spec hw hc hn ho hfd
+  obtain ⟨k1, _⟩ := anc_lastOr hw (common := d.common) hn (d.connected.reverse.take (fetchPrefix s req1 d.connected.reverse))
+    (d.connected.reverse.drop (fetchPrefix s req1 d.connected.reverse))
+    (by rw [List.take_append_drop]; simp [hL.path])
+  rw [← htip] at k1
+  rcases s2 with ⟨tree2, best2, fails2, hidden2⟩
+  simp only at ht2 hb2
+  subst ht2 hb2
+  have hf0 : ∀ k, fails2 k = false := hs2.1
+  have hh0 : ∀ h, hidden2 h = false := hs2.2
+  have hnew : hdrOf s.tree new.hash = some new := hn
+  rcases Nat.lt_or_ge (fetchPrefix s req1 d.connected.reverse) d.connected.reverse.length with hlt | hge
+  · -- interrupted: the remaining blocks are delivered
+    have hne : d.connected.reverse.drop (fetchPrefix s req1 d.connected.reverse) ≠ [] := by
+      intro h; have := congrArg List.length h
+      simp only [List.length_drop, List.length_nil] at this; omega
+    have hwk := anc_work_lt hw _ new hn k1 (by simpa using hne)
+    have hhash : (new.hash == cl'.tip.hash) = false := by
+      cases hq : new.hash == cl'.tip.hash with
+      | false => rfl
+      | true =>
+        have : new = cl'.tip := inTree_hash_inj hn u2 (by simpa using hq)
+        rw [← this] at hwk; omega
+    have hpoll : pollChainTip ⟨s.tree, new.hash, fails2, hidden2⟩ 0 cl'.tip = .ok (.better new, 2) := by
+      simp [pollChainTip, Source.getBestBlock, Source.getHeader, hf0, hh0, hhash, hnew, hwk]
+    have hs2' : (Source.mk s.tree new.hash fails2 hidden2).Healthy := hs2
+    obtain ⟨d2, q, e2⟩ := findDiff_complete (s := ⟨s.tree, new.hash, fails2, hidden2⟩) hw hg hs2' u3 2 hn u2
+    have hL2 := findDiff_spec (s := ⟨s.tree, new.hash, fails2, hidden2⟩) hw u3 hn u2 e2
+    have hcand : IsLca s.tree new cl'.tip
+        ⟨cl'.tip, (d.connected.reverse.drop (fetchPrefix s req1 d.connected.reverse)).reverse⟩ :=
+      ⟨k1, mem_anc_self _ _, fun x _ hx => hx⟩
+    have hd2 : d2 = ⟨cl'.tip, (d.connected.reverse.drop (fetchPrefix s req1 d.connected.reverse)).reverse⟩ :=
+      hL2.unique hw hn hcand
+    subst hd2
+    have hall : ∀ x ∈ d.connected.reverse.drop (fetchPrefix s req1 d.connected.reverse), InTree s.tree x := by
+      intro x hx
+      apply anc_inTree hw hn
+      rw [hL.path]; exact List.mem_append_left _ (List.mem_reverse.mp (List.mem_of_mem_drop hx))
+    have hp1 := fun tip c' req' => connectBlocks_prefix ⟨s.tree, new.hash, fails2, hidden2⟩
+      (d.connected.reverse.drop (fetchPrefix s req1 d.connected.reverse)) tip c' req'
+    have hfp := fun req' => fetchPrefix_healthy (s := ⟨s.tree, new.hash, fails2, hidden2⟩) hs2'
+      (d.connected.reverse.drop (fetchPrefix s req1 d.connected.reverse)) req' hall
+    simp only [pollBestTip, hpoll, updateChainTip, synchronizeListener, e2, List.reverse_reverse, hp1, hfp,
+      beq_self_eq_true, if_true]
+    simp
+    apply List.take_of_length_le
+    simp
+  · -- everything had been delivered: the next poll sees a common tip
+    have hj : fetchPrefix s req1 d.connected.reverse = d.connected.reverse.length := by
+      have := fetchPrefix_le s d.connected.reverse req1; omega
+    have htn : cl'.tip = new := by rw [htip]; exact (hk.2.2.1 hj).2
+    have hpoll : pollChainTip ⟨s.tree, new.hash, fails2, hidden2⟩ 0 new = .ok (.common, 1) := by
+      simp [pollChainTip, Source.getBestBlock, hf0]
+    simp [pollBestTip, hpoll, htn, hj]
+
+example : (pollBestTip (exSrc 6 []) (updateChainTip (exSrc 6 [8]) ⟨b3, []⟩ 2 b6).1).notifs
+    = [.connected 5 2, .connected 6 3] := by decide
+
+/-! ## start-up synchronisation brings every listener to the same tip -/
+
+/-- Listeners last synced to different, possibly stale, blocks `p.1` (described by locators `p.2`
+    whose `previous_blocks` are ancestors): if `synchronize_listeners` returns `Ok((cache, best))` —
+    under any failure schedule that it survives, e.g. failed look-ups of forgotten stale tips that the
+    locator fallback absorbs — then EVERY listener's notifications, folded over its own old chain, end
+    at the chain of the same block `best`, which is the source's best block; the returned cache is
+    consistent, so the `SpvClient` built from `(best, cache)` satisfies the hypotheses of the poll
+    theorems above. -/
+theorem listeners_converge (s : Source) (pairs : List (Hdr × Locator)) (best : Hdr) (cache : Cache)
+    (hw : wfTree s.tree = true) (hl : ∀ p ∈ pairs, LocatorOk s.tree p.2 p.1)
+    (h : (synchronizeListeners s (pairs.map (·.2))).result = .ok (best, cache)) :
+    Forall2 (fun p ns => applyNotifs s.tree (anc s.tree p.1) ns = some (anc s.tree best)) pairs
+      (synchronizeListeners s (pairs.map (·.2))).notifs ∧
+    InTree s.tree best ∧ best.hash = s.best ∧ CacheOk s.tree cache := by
+  unfold synchronizeListeners at h ⊢
+  cases hbb : s.getBestBlock 0 with
+  | error e => simp [hbb] at h
+  | ok bh =>
+    cases hgh : s.getHeader 1 bh with
+    | error e => simp [hbb, hgh] at h
+    | ok best' =>
+      have hbh : bh = s.best := by
+        unfold Source.getBestBlock at hbb
+        split at hbb
+        · cases hbb
+        · cases hbb; rfl
+      have hhd := getHeader_ok hgh
+      have hbt : InTree s.tree best' := inTree_of_hdrOf hw hhd
+      simp only [hbb, hgh] at h ⊢
+      by_cases hok1 : (phase1 s best' (pairs.map (·.2)) [] 2 []).ok = true
+      · obtain ⟨q1, q2, q3⟩ := phase1_spec hw hbt pairs [] 2 [] hl (cacheOk_nil _) ⟨best', by simp⟩ hok1
+        obtain ⟨cm, hcm⟩ := q3
+        have hall : ∀ b ∈ (phase1 s best' (pairs.map (·.2)) [] 2 []).most.reverse, InTree s.tree b := by
+          intro b hb
+          apply anc_inTree hw hbt
+          rw [hcm]; exact List.mem_append_left _ (List.mem_reverse.mp hb)
+        obtain ⟨r1, r2⟩ := phase2_spec s (t := s.tree) MAX_BLOCKS_AT_ONCE (by decide) _ _
+          (phase1 s best' (pairs.map (·.2)) [] 2 []).cache (phase1 s best' (pairs.map (·.2)) [] 2 []).req
+          (Nat.le_refl _) q2 hall
+        simp only [hok1, Bool.not_true, Bool.false_eq_true, if_false] at h ⊢
+        generalize phase2 s MAX_BLOCKS_AT_ONCE (phase1 s best' (pairs.map (·.2)) [] 2 []).most.reverse.length
+          (phase1 s best' (pairs.map (·.2)) [] 2 []).most.reverse
+          (phase1 s best' (pairs.map (·.2)) [] 2 []).cache (phase1 s best' (pairs.map (·.2)) [] 2 []).req = p2 at *
+        rcases p2 with ⟨ok, c, r, delivered⟩
+        cases ok with
+        | false => simp at h
+        | true =>
+          simp only [if_true, Except.ok.injEq, Prod.mk.injEq] at h ⊢
+          obtain ⟨hb', hc'⟩ := h
+          subst hb' hc'
+          simp only at r1 r2
+          have hdel := r1 trivial
+          subst hdel
+          refine ⟨?_, hbt, ?_, r2⟩
+          · apply forall2_map_right _ q1
+            intro bl p hp
+            obtain ⟨common, dconn, e1, hct, e3, e4, e5⟩ := hp
+            rw [e1]
+            simp only
+            rw [applyNotifs_append, e5]
+            simp only [Option.bind]
+            rw [connectedFor_most hw hbt e3 hcm hct e4]
+            exact apply_connect_path hw hbt dconn.reverse common (by simp [e3])
+          · rw [(hdrOf_some hhd).2, hbh]
+      · simp [hok1] at h
+
+-- stale listener on 3, another already on the best chain at 5, a fresh one at genesis
+example : (synchronizeListeners (exSrc 6 []) [⟨3, 2, [some 2, some 1]⟩, ⟨5, 2, []⟩, ⟨1, 0, []⟩]).notifs =
+    [[.disconnected 1 0, .connected 4 1, .connected 5 2, .connected 6 3], [.connected 6 3],
+     [.connected 4 1, .connected 5 2, .connected 6 3]] := by decide
+example : LocatorOk exTree ⟨3, 2, [some 2, some 1]⟩ b3 := by
+  refine ⟨by decide, rfl, ?_⟩
+  intro d h x hm hx
+  simp [Locator.candidates, prevCandidates] at hm
+  rcases hm with ⟨_, rfl⟩ | ⟨_, rfl⟩ | ⟨_, rfl⟩ <;> (cases hx; decide)
+
 end Ldk.C20
